@@ -108,3 +108,55 @@ package grpc
 //@   ensures[C14] rule: result == ite(err != nil, 2, 0)
 //@ func defaultLimitExceededResponseClassifier
 //@   ensures[C14] resource_exhausted: ret1 == 8 && ret2 != nil && ret0 == nil
+
+// ---------------------------------------------------------------------------------------------
+// Defaults and interceptor construction: defaults first, then the options in order; the returned
+// interceptor closes over that configuration.
+//@ func defaults
+//@   requires cfg: cfg != nil
+//@   ensures[C14] complete: unaryCfgOK(cfg)
+//@   ensures[C14] default_classifiers: isfunc(cfg.limitExceededResponseClassifier, "grpc.defaultLimitExceededResponseClassifier") && isfunc(cfg.clientResponseClassifer, "grpc.defaultClientResponseClassifier") && isfunc(cfg.serverResponseClassifer, "grpc.defaultServerResponseClassifier")
+//@   ensures[C14] default_limiter: dyntype(cfg.limiter, "*limiter.DefaultLimiter")
+
+//@ func streamDefaults
+//@   requires cfg: cfg != nil
+//@   ensures[C14] complete: cfg.recvLimiter != nil && cfg.sendLimiter != nil && cfg.recvLimitExceededResponseClassifier != nil && cfg.sendLimitExceededResponseClassifier != nil && cfg.clientResponseClassifer != nil && cfg.serverResponseClassifer != nil
+//@   ensures[C14] separate_limiters: ref(cfg.recvLimiter) != ref(cfg.sendLimiter) && dyntype(cfg.recvLimiter, "*limiter.DefaultLimiter") && dyntype(cfg.sendLimiter, "*limiter.DefaultLimiter")
+//@   ensures[C14] default_classifiers: isfunc(cfg.recvLimitExceededResponseClassifier, "grpc.defaultLimitExceededResponseClassifier") && isfunc(cfg.sendLimitExceededResponseClassifier, "grpc.defaultLimitExceededResponseClassifier") && isfunc(cfg.clientResponseClassifer, "grpc.defaultStreamClientResponseClassifier") && isfunc(cfg.serverResponseClassifer, "grpc.defaultStreamServerResponseClassifier")
+
+// Option constructors return the closure that sets exactly their argument.
+//@ func WithLimiter
+//@   ensures[C14] closure: isfunc(result, "grpc.WithLimiter$1") && *captured(result, "grpc.WithLimiter$1", 0) == limiter
+//@ func WithLimitExceededResponseClassifier
+//@   ensures[C14] closure: isfunc(result, "grpc.WithLimitExceededResponseClassifier$1") && *captured(result, "grpc.WithLimitExceededResponseClassifier$1", 0) == classifier
+//@ func WithClientResponseTypeClassifier
+//@   ensures[C14] closure: isfunc(result, "grpc.WithClientResponseTypeClassifier$1") && *captured(result, "grpc.WithClientResponseTypeClassifier$1", 0) == classifier
+//@ func WithServerResponseTypeClassifier
+//@   ensures[C14] closure: isfunc(result, "grpc.WithServerResponseTypeClassifier$1") && *captured(result, "grpc.WithServerResponseTypeClassifier$1", 0) == classifier
+//@ func WithStreamSendLimiter
+//@   ensures[C14] closure: isfunc(result, "grpc.WithStreamSendLimiter$1") && *captured(result, "grpc.WithStreamSendLimiter$1", 0) == limiter
+//@ func WithStreamRecvLimiter
+//@   ensures[C14] closure: isfunc(result, "grpc.WithStreamRecvLimiter$1") && *captured(result, "grpc.WithStreamRecvLimiter$1", 0) == limiter
+//@ func WithStreamSendLimitExceededResponseClassifier
+//@   ensures[C14] closure: isfunc(result, "grpc.WithStreamSendLimitExceededResponseClassifier$1") && *captured(result, "grpc.WithStreamSendLimitExceededResponseClassifier$1", 0) == classifier
+//@ func WithStreamRecvLimitExceededResponseClassifier
+//@   ensures[C14] closure: isfunc(result, "grpc.WithStreamRecvLimitExceededResponseClassifier$1") && *captured(result, "grpc.WithStreamRecvLimitExceededResponseClassifier$1", 0) == classifier
+//@ func WithStreamClientResponseTypeClassifier
+//@   ensures[C14] closure: isfunc(result, "grpc.WithStreamClientResponseTypeClassifier$1") && *captured(result, "grpc.WithStreamClientResponseTypeClassifier$1", 0) == classifier
+//@ func WithStreamServerResponseTypeClassifier
+//@   ensures[C14] closure: isfunc(result, "grpc.WithStreamServerResponseTypeClassifier$1") && *captured(result, "grpc.WithStreamServerResponseTypeClassifier$1", 0) == classifier
+
+// Interceptor constructors: one configuration object, defaults applied to it before any option,
+// every option applied to that same object, and the returned interceptor closes over it.
+//@ func UnaryServerInterceptor
+//@   loop 1 invariant[C14] applies_options_to_the_config: -1 <= #rangeindex && #rangeindex < len(opts)
+//@   ensures[C14] closes_over_config: isfunc(result, "grpc.UnaryServerInterceptor$1") && *captured(result, "grpc.UnaryServerInterceptor$1", 0) != nil && fresh(*captured(result, "grpc.UnaryServerInterceptor$1", 0))
+//@   ensures[C14] defaults_once: ncalls("grpc.defaults") == 1 && callarg("grpc.defaults", 0, 0) == *captured(result, "grpc.UnaryServerInterceptor$1", 0)
+//@ func UnaryClientInterceptor
+//@   loop 1 invariant[C14] applies_options_to_the_config: -1 <= #rangeindex && #rangeindex < len(opts)
+//@   ensures[C14] closes_over_config: isfunc(result, "grpc.UnaryClientInterceptor$1") && *captured(result, "grpc.UnaryClientInterceptor$1", 0) != nil && fresh(*captured(result, "grpc.UnaryClientInterceptor$1", 0))
+//@   ensures[C14] defaults_once: ncalls("grpc.defaults") == 1 && callarg("grpc.defaults", 0, 0) == *captured(result, "grpc.UnaryClientInterceptor$1", 0)
+//@ func StreamServerInterceptor
+//@   loop 1 invariant[C14] applies_options_to_the_config: -1 <= #rangeindex && #rangeindex < len(opts)
+//@   ensures[C14] closes_over_config: isfunc(result, "grpc.StreamServerInterceptor$1") && *captured(result, "grpc.StreamServerInterceptor$1", 0) != nil && fresh(*captured(result, "grpc.StreamServerInterceptor$1", 0))
+//@   ensures[C14] defaults_once: ncalls("grpc.streamDefaults") == 1 && callarg("grpc.streamDefaults", 0, 0) == *captured(result, "grpc.StreamServerInterceptor$1", 0)
